@@ -89,6 +89,13 @@ def _lr_fn(spec):
       k = sum((t >= x).astype(jnp.float32) for x in b)
       return jnp.asarray(lr0, jnp.float32) * jnp.exp2(-k)
     return f
+  if kind == "levels":      # lr0 * 2^e from the given steps on: may RISE above lr(0) (warm-up)
+    lv = spec["levels"]
+    def g(t):
+      t = jnp.asarray(t, jnp.int32)
+      e = sum((t >= x).astype(jnp.float32) * float(d) for x, d in lv)
+      return jnp.asarray(lr0, jnp.float32) * jnp.exp2(e)
+    return g
   raise ValueError(kind)
 
 
